@@ -393,7 +393,16 @@ impl Gen {
     }
 
     pub fn deposit(&mut self, h: &mut History, r: &mut Report, trader: &str, v: usize, amount: u128) -> Rc<Step> {
-        let funds = if h.w.cw20.is_some() { 0 } else { amount };
+        let mut funds = if h.w.cw20.is_some() { 0 } else { amount };
+        if h.w.cw20.is_none() && self.rng.chance(1, 6) {
+            // native collateral: attached coins that do not match the declared amount must be refused
+            funds = match self.rng.below(4) {
+                0 => amount + 1,
+                1 => amount.saturating_mul(2) + self.rng.u128_below(1000),
+                2 => amount.saturating_sub(1),
+                _ => amount / 2,
+            };
+        }
         let op = Op::Engine {
             sender: trader.to_string(),
             msg: eng::ExecuteMsg::DepositMargin { vamm: Self::vaddr(h, v), amount: u(amount) },
